@@ -125,7 +125,7 @@ package job
 //@        (!existingRefs[jobtasks.taskName(tasks[j])].RunningTimestamp.IsZero() ==> !newRefs[j].RunningTimestamp.IsZero())
 //@        && (!existingRefs[jobtasks.taskName(tasks[j])].FinishTimestamp.IsZero() ==> !newRefs[j].FinishTimestamp.IsZero())
 //@   loop 2 invariant forall n string :: (n in newRefNames) ==> (exists j int :: 0 <= j && j <= rangeindex && jobtasks.taskName(tasks[j]) == n)
-//@   loop 3 invariant -1 <= rangeindex && rangeindex < len(existing) && len(newRefs) >= len(tasks)
+//@   loop 3 invariant -1 <= rangeindex && rangeindex < len(existing) && len(newRefs) >= len(tasks) && clock >= old(clock)
 //@   loop 3 invariant forall j int :: 0 <= j && j < len(tasks) ==> newRefs[j].Name == jobtasks.taskName(tasks[j]) && newRefs[j].Status == jobtasks.taskRefOf(tasks[j]).Status
 //@   loop 3 invariant forall k int :: 0 <= k && k <= rangeindex ==> hasRef(newRefs, existing[k].Name)
 //@   loop 3 invariant forall i int :: len(tasks) <= i && i < len(newRefs) ==> !newRefs[i].FinishTimestamp.IsZero()
